@@ -330,15 +330,37 @@ func c02HasNanPayload(es []Ev) bool {
 	return false
 }
 
-// a comment that is the first thing inside a node
+// a single-line comment (any text, also empty) standing before the value of a node: the position in which the
+// encoder decides by Writer.Column whether a line feed follows the comment (finding comment-first-in-node)
 func c02CommentFirstInNode(es []Ev) bool {
 	for i := 0; i+1 < len(es); i++ {
 		if es[i].K == "node" {
 			for j := i + 1; j < len(es) && (es[j].K == "pad" || es[j].K == "cm"); j++ {
-				if es[j].K == "cm" {
+				if es[j].K == "cm" && !es[j].B {
 					return true
 				}
 			}
+		}
+	}
+	return false
+}
+
+// the symptom of that finding when the text still parses: the first difference is a single-line comment that
+// has swallowed what followed it on its line (the decoded text extends the original text)
+func c02CommentSwallowed(want, got string) bool {
+	w, g := strings.Split(want, " (D"), strings.Split(got, " (D")
+	for i := range w {
+		if i >= len(g) {
+			return false
+		}
+		if w[i] != g[i] {
+			const pre = "Comment false ["
+			if !strings.HasPrefix(w[i], pre) || !strings.HasPrefix(g[i], pre) {
+				return false
+			}
+			wl := strings.TrimRight(strings.TrimSuffix(strings.TrimSpace(w[i][len(pre):]), ")"), "]")
+			gl := strings.TrimRight(strings.TrimSuffix(strings.TrimSpace(g[i][len(pre):]), ")"), "]")
+			return len(gl) > len(wl) && (wl == "" || strings.HasPrefix(gl, wl+";"))
 		}
 	}
 	return false
@@ -392,7 +414,7 @@ func c02Check(c *Ctx, es []Ev, class string) (text []byte, fine bool) {
 	key := "C02/roundtrip/" + construct
 	if construct == "" {
 		key = "C02/roundtrip/other/" + stage
-		if stage == "decode" && c02CommentFirstInNode(es) {
+		if c02CommentFirstInNode(es) && (stage == "decode" || (stage == "data" && c02CommentSwallowed(want, got))) {
 			key = "C02/roundtrip/comment-first-in-node"
 		} else if stage == "data" {
 			key += "/" + c01FirstDiff(want, got)
@@ -1086,12 +1108,72 @@ func c02Directed() map[string][]Ev {
 		"bigfloat-one":                 c02List(Ev{K: "bf", BF: new(big.Float).SetPrec(53).SetInt64(1)}, Ev{K: "bf", BF: new(big.Float).SetPrec(10).SetInt64(-1)}),
 		"bigfloat-others":              c02List(Ev{K: "bf", BF: new(big.Float).SetPrec(53).SetInt64(2)}, Ev{K: "bf", BF: new(big.Float).SetPrec(100).SetFloat64(1.5)}, Ev{K: "bf", BF: new(big.Float).SetPrec(100).SetInt(new(big.Int).Add(bigPow2(80), big.NewInt(1)))}, Ev{K: "bf", BF: new(big.Float).SetPrec(64).SetMantExp(big.NewFloat(0.75), -3000)}),
 		"bigdecimal-wide":              c02List(Ev{K: "bdf", BDF: apdOf(true, new(big.Int).Add(bigPow2(64), big.NewInt(5)), -7)}, Ev{K: "bdf", BDF: apdOf(false, bigPow2(63), 3)}),
-		"comment-after-marker":         c02Doc(Ev{K: "mk", Data: []byte("a")}, Ev{K: "cm", Data: []byte("k")}, Ev{K: "pi", N: 1}),
-		"padding":                      c02Doc(Ev{K: "pad"}, Ev{K: "l"}, Ev{K: "pad"}, Ev{K: "pi", N: 1}, Ev{K: "pad"}, Ev{K: "pad"}, Ev{K: "e"}),
-		"empty-containers":             c02List(Ev{K: "l"}, Ev{K: "e"}, Ev{K: "m"}, Ev{K: "e"}, Ev{K: "node"}, Ev{K: "null"}, Ev{K: "e"}),
+		// the shapes of the structure theorem's fragment (Props/C02.v C02_example_hypotheses), one stream
+		"fragment-example": c02Doc(
+			Ev{K: "rt", Data: []byte("pt")}, Ev{K: "a", A: 1, N: 1, Data: []byte("x")}, Ev{K: "sa", A: 1, Data: []byte("y")}, Ev{K: "e"},
+			Ev{K: "l"},
+			Ev{K: "cm", Data: []byte("hi")},
+			Ev{K: "rec", Data: []byte("pt")}, Ev{K: "pi", N: 1}, Ev{K: "ni", N: 2}, Ev{K: "e"},
+			Ev{K: "node"}, Ev{K: "a", A: 1, N: 1, Data: []byte("n")}, Ev{K: "null"},
+			Ev{K: "edge"}, Ev{K: "pi", N: 1}, Ev{K: "cm", B: true, Data: []byte("*x")}, Ev{K: "sa", A: 2, Data: []byte("h:x")}, Ev{K: "pi", N: 2}, Ev{K: "e"}, Ev{K: "e"},
+			Ev{K: "mk", Data: []byte("m1")}, Ev{K: "l"}, Ev{K: "b", B: true}, Ev{K: "f"}, Ev{K: "e"},
+			Ev{K: "ref", Data: []byte("m1")},
+			Ev{K: "media", S: "a/b", Data: []byte{1, 255}},
+			Ev{K: "cb", N: 7, Data: []byte{16}}, Ev{K: "ct", N: 7, Data: []byte("t\u00e9")},
+			Ev{K: "a", A: events.ArrayTypeInt16, N: 5, Data: []byte{1, 0, 255, 255, 0, 128, 255, 127, 0, 0}},
+			Ev{K: "a", A: events.ArrayTypeUint64, N: 1, Data: []byte{255, 255, 255, 255, 255, 255, 255, 255}},
+			Ev{K: "a", A: events.ArrayTypeInt8, N: 0, Data: []byte{}},
+			Ev{K: "m"},
+			Ev{K: "a", A: 1, N: 12, Data: []byte("k\u00e9\n\"\u20ac\U0001F600")},
+			Ev{K: "l"}, Ev{K: "null"}, Ev{K: "a", A: 3, N: 4, Data: []byte("h:\u00e9")}, Ev{K: "bi", Big: new(big.Int).Lsh(big.NewInt(1), 64)}, Ev{K: "ni", N: 0}, Ev{K: "i", I: -5},
+			Ev{K: "l"}, Ev{K: "e"}, Ev{K: "m"}, Ev{K: "e"}, Ev{K: "e"},
+			Ev{K: "cm", B: true, Data: []byte("*x")},
+			Ev{K: "ni", N: 7}, Ev{K: "mk", Data: []byte("z")}, Ev{K: "sa", A: 1, Data: []byte("")},
+			Ev{K: "e"}, Ev{K: "e"}),
+		"comment-first-in-node-swallows": c02Doc(Ev{K: "edge"}, Ev{K: "cm", Data: []byte("")}, Ev{K: "cm", B: true, Data: []byte(">")},
+			Ev{K: "node"}, Ev{K: "node"}, Ev{K: "cm", Data: []byte("")}, Ev{K: "cb", N: 2, Data: []byte{0x6c, 0x83}}, Ev{K: "e"}, Ev{K: "null"}, Ev{K: "e"},
+			Ev{K: "pi", N: 1}, Ev{K: "pi", N: 2}, Ev{K: "e"}),
+		"fragment-int-arrays": c02List(c02IntArrays()...),
+		"fragment-bit-arrays": c02List(Ev{K: "a", A: events.ArrayTypeBit, N: 0, Data: []byte{}}, Ev{K: "a", A: events.ArrayTypeBit, N: 1, Data: []byte{1}},
+			Ev{K: "a", A: events.ArrayTypeBit, N: 7, Data: []byte{0x55}}, Ev{K: "a", A: events.ArrayTypeBit, N: 8, Data: []byte{0x80}},
+			Ev{K: "a", A: events.ArrayTypeBit, N: 10, Data: []byte{0x0d, 0x03}}, Ev{K: "a", A: events.ArrayTypeBit, N: 17, Data: []byte{0xff, 0x00, 0x01}}),
+		"fragment-uid-values": c02List(Ev{K: "uid", Data: []byte{0x12, 0x34, 0x56, 0x7e, 0x12, 0x34, 0x56, 0x78, 0x9a, 0xbc, 0xde, 0xf0, 1, 2, 3, 4}},
+			Ev{K: "uid", Data: []byte{0x0b, 0x11, 0x01, 0x01, 0, 0, 0, 0, 0, 0, 0, 0, 0, 0, 0, 0}},
+			Ev{K: "uid", Data: []byte{0xfa, 0x15, 0xe0, 0x00, 0xab, 0xcd, 0xef, 0x01, 0x23, 0x45, 0x67, 0x89, 0xff, 0xff, 0xff, 0xff}},
+			Ev{K: "uid", Data: []byte{0x20, 0x24, 0x01, 0x01, 0x12, 0x01, 0x10, 0x00, 0, 0, 0, 0, 0, 0, 0, 0}},
+			Ev{K: "uid", Data: []byte{0x1e, 0x55, 0x55, 0x55, 0x1e, 0x10, 0x0e, 0x01, 0xe1, 0x23, 0x00, 0x0e, 0x00, 0x00, 0x00, 0x0e}},
+			Ev{K: "uid", Data: bytes.Repeat([]byte{0}, 16)}, Ev{K: "uid", Data: bytes.Repeat([]byte{0xaa}, 16)}),
+		"fragment-uid-arrays": c02List(Ev{K: "a", A: events.ArrayTypeUID, N: 0, Data: []byte{}},
+			Ev{K: "a", A: events.ArrayTypeUID, N: 1, Data: bytes.Repeat([]byte{255}, 16)},
+			Ev{K: "a", A: events.ArrayTypeUID, N: 3, Data: append(append(bytes.Repeat([]byte{0}, 16), []byte{0, 0x11, 0x22, 0x33, 0x44, 0x55, 0x66, 0x77, 0x88, 0x99, 0xaa, 0xbb, 0xcc, 0xdd, 0xee, 0xff}...),
+				[]byte{0x0a, 0xa0, 0x09, 0x90, 0x10, 0x01, 0x9f, 0xf9, 0xab, 0xcd, 0xef, 0xfe, 0xdc, 0xba, 0x7f, 0x80}...)}),
+		"fragment-node-positions": c02Doc(Ev{K: "node"}, Ev{K: "pi", N: 1}, Ev{K: "node"}, Ev{K: "pi", N: 2}, Ev{K: "e"},
+			Ev{K: "l"}, Ev{K: "node"}, Ev{K: "null"}, Ev{K: "e"}, Ev{K: "e"}, Ev{K: "e"}),
+		"fragment-media-custom": c02List(Ev{K: "media", S: "application/x-sh", Data: []byte{}}, Ev{K: "media", S: "a{}/b!#$", Data: []byte{0, 16, 255, 170}},
+			Ev{K: "cb", N: 0, Data: []byte{}}, Ev{K: "cb", N: 1<<32 - 1, Data: []byte{9, 10}}, Ev{K: "ct", N: 0, Data: []byte("")}, Ev{K: "ct", N: 99, Data: []byte("a\"\\\n")}),
+		"comment-after-marker": c02Doc(Ev{K: "mk", Data: []byte("a")}, Ev{K: "cm", Data: []byte("k")}, Ev{K: "pi", N: 1}),
+		"padding":              c02Doc(Ev{K: "pad"}, Ev{K: "l"}, Ev{K: "pad"}, Ev{K: "pi", N: 1}, Ev{K: "pad"}, Ev{K: "pad"}, Ev{K: "e"}),
+		"empty-containers":     c02List(Ev{K: "l"}, Ev{K: "e"}, Ev{K: "m"}, Ev{K: "e"}, Ev{K: "node"}, Ev{K: "null"}, Ev{K: "e"}),
 		"specials": c02List(Ev{K: "nan", B: true}, Ev{K: "nan"}, Ev{K: "null"}, Ev{K: "t"}, Ev{K: "f"}, Ev{K: "b", B: true}, Ev{K: "bi"}, Ev{K: "bf"}, Ev{K: "bdf"},
 			Ev{K: "uid", Data: []byte{0, 1, 2, 3, 4, 5, 6, 7, 8, 9, 10, 11, 12, 13, 14, 255}}),
 	}
+}
+
+// every integer array type with its boundary elements, and empty
+func c02IntArrays() []Ev {
+	out := []Ev{}
+	for _, t := range []events.ArrayType{events.ArrayTypeUint8, events.ArrayTypeUint16, events.ArrayTypeUint32, events.ArrayTypeUint64,
+		events.ArrayTypeInt8, events.ArrayTypeInt16, events.ArrayTypeInt32, events.ArrayTypeInt64} {
+		w := t.ElementSize() / 8
+		vals := [][]byte{bytes.Repeat([]byte{0}, w), bytes.Repeat([]byte{255}, w), append(bytes.Repeat([]byte{0}, w-1), 128), append(bytes.Repeat([]byte{255}, w-1), 127),
+			append([]byte{1}, bytes.Repeat([]byte{0}, w-1)...)}
+		data := []byte{}
+		for _, v := range vals {
+			data = append(data, v...)
+		}
+		out = append(out, Ev{K: "a", A: t, N: uint64(len(vals)), Data: data}, Ev{K: "a", A: t, N: 0, Data: []byte{}}, Ev{K: "a", A: t, N: 1, Data: vals[1]})
+	}
+	return out
 }
 
 // strings made of every interesting code point: each class boundary of the three generated tables and of the
